@@ -243,6 +243,7 @@ void Exec::op_opt(const Op& op) {
   if (op.str("name") == "target_segments_per_thread" && v >= 2) forced_abandon = true;   // the thread's own segments may be abandoned at any allocation
   if (op.str("name") == "visit_abandoned") visit_abandoned_on = (v != 0);
   if (op.str("name") == "purge_delay") opt_purge_delay = v;
+  if (op.str("name") == "purge_decommits") opt_purge_decommits = (v != 0);
   if (op.str("name") == "arena_purge_mult") opt_purge_mult = v;
 #if defined(VF_DEBUG_BUILD)
   // debug build only: _mi_os_reset "pretends" an eager reset with memset(start,0,size) (MI_DEBUG>1 && !MI_SECURE), which faults when the
